@@ -117,6 +117,13 @@ def main(tier, write_baseline=False):
         irs = list(domain.irs(1, pool, suffix_defaults=True)) + list(domain.irs(2, pool, sample=40 if tier == "quick" else 600, seed=run.seed, suffix_defaults=True))
         irs += list(domain.irs(3, pool, sample=15 if tier == "quick" else 200, seed=run.seed + 1, suffix_defaults=True))[-(15 if tier == "quick" else 200):]
         irs = [i for i in irs if i["params"]]
+        # identifiers with letters outside ASCII (legal Python 3 names): every format has to carry them as they are
+        from collections import OrderedDict as _OD
+
+        for names_ in (("gr\u00f6\u00dfe", "\u03bb_rate"), ("na\u00efve",), ("\u00e9t\u00e9", "x2")):
+            base = domain.make_ir((("int", 5, "the {name}"), ("str", "s", "the {name}"))[:len(names_)])
+            base["params"] = _OD((n_, dict(p_, doc="the value")) for n_, p_ in zip(names_, base["params"].values()))
+            irs.append(base)
         # word-wrap sweep: descriptions of every length around the place where the 100-column wrapper of the ReST emitter breaks
         # the ':param x: <doc>. Defaults to "<several words>"' line inside the default
         words = "lorem ipsum dolor sit amet consectetur adipiscing elit sed do eiusmod tempor incididunt ut labore et dolore".split()
@@ -147,7 +154,7 @@ def main(tier, write_baseline=False):
                     fails.setdefault(("newly-raises", "first-broken-by=" + seq[-1], exc, "-", "-"), (seq, ir_, "the chain %s ran on the committed tree and now raises %s" % (" -> ".join(seq), exc)))
         run.bounded.append({
             "name": "H1 / H2 of the Lean lemma checked by running conversion chains on the real emitters/parsers (bounded, NOT counted as proved)",
-            "bound": "%d start interfaces (n = 1 exhaustive over %d shapes: scalar / Optional[scalar] / Literal types with signature-legal defaults; n = 2, 3 seeded samples; plus a word-wrap sweep: str / Optional[str] parameters with a three-word default under descriptions of 44..83 characters) x every sequence of length 1..3 over {class, pydantic, function, argparse, docstring-rest} (155) + %d sampled sequences of length 4..5; %d chains raised" % (len(irs), len(pool), 12 if tier == "quick" else 80, raised),
+            "bound": "%d start interfaces (n = 1 exhaustive over %d shapes: scalar / Optional[scalar] / Literal types with signature-legal defaults; n = 2, 3 seeded samples; plus 3 interfaces whose parameter names have non-ASCII letters; plus a word-wrap sweep: str / Optional[str] parameters with a three-word default under descriptions of 44..83 characters) x every sequence of length 1..3 over {class, pydantic, function, argparse, docstring-rest} (155) + %d sampled sequences of length 4..5; %d chains raised" % (len(irs), len(pool), 12 if tier == "quick" else 80, raised),
             "rule": "one evaluation = one chain run to its end; distinct = distinct (start, sequence)",
             "evaluations": n, "distinct_nontrivial": n, "interfaces_reached_per_start_max": max((r[3] for r in res), default=0),
             "failures": [{"class": "|".join(map(str, k)), "what": v[2][:300]} for k, v in list(fails.items())[:6]],
